@@ -288,3 +288,46 @@ theorem pw_compose_self {α} (f g h : List α → α) (hfg : ∀ v, f [g [v], v]
     exact hfg _
 
 end J2O
+
+namespace J2O
+
+/-- rank-0 size-1 constants -/
+def Scalar0 {α} (c : Tensor α) : Prop := c.ScalarLike ∧ c.rank = 0
+
+theorem foldl_max_scalars {α} (cs : List (Tensor α)) (h : ∀ c ∈ cs, Scalar0 c) (m : Nat) :
+    cs.foldl (fun m t => max m t.rank) m = m := by
+  induction cs generalizing m with
+  | nil => rfl
+  | cons c cs ih =>
+    simp only [List.foldl_cons]
+    rw [(h c (List.mem_cons_self ..)).2, Nat.max_zero]
+    exact ih (fun c' hc' => h c' (List.mem_cons_of_mem _ hc')) m
+
+theorem foldl_bstep_scalars {α} (cs : List (Tensor α)) (h : ∀ c ∈ cs, Scalar0 c) (r j d : Nat) :
+    cs.foldl (bstep r j) d = d := by
+  induction cs generalizing d with
+  | nil => rfl
+  | cons c cs ih =>
+    simp only [List.foldl_cons]
+    have hc := h c (List.mem_cons_self ..)
+    have : bstep r j d c = d := by
+      simp only [bstep, hc.1.1]
+      split <;> simp
+    rw [this]
+    exact ih (fun c' hc' => h c' (List.mem_cons_of_mem _ hc')) d
+
+/-- a pointwise operator whose operands are one tensor `a` and rank-0 constants has the rank and
+    extents of `a` -/
+theorem pw_scalars_spec {α} (f : List α → α) (pre post : List (Tensor α)) (a : Tensor α)
+    (hpre : ∀ c ∈ pre, Scalar0 c) (hpost : ∀ c ∈ post, Scalar0 c) :
+    (pw f (pre ++ [a] ++ post)).rank = a.rank ∧ (pw f (pre ++ [a] ++ post)).dim = a.dim := by
+  have hr : maxRank (pre ++ [a] ++ post) = a.rank := by
+    simp only [maxRank, List.foldl_append, List.foldl_cons, List.foldl_nil]
+    rw [foldl_max_scalars pre hpre, foldl_max_scalars post hpost]
+    simp
+  refine ⟨by simp only [pw, hr], ?_⟩
+  funext j
+  simp only [pw, hr, bdim, List.foldl_append, List.foldl_cons, List.foldl_nil]
+  rw [foldl_bstep_scalars pre hpre, foldl_bstep_scalars post hpost, bstep_self]
+
+end J2O
